@@ -700,8 +700,11 @@ class Dataset(AbstractDataset, dict, OpMixin, GetSetDelAttrMixin):
             dataset.axes[axis][mask] = values[mask]
 
             for k in dataset.keys():
+                if newax.name not in dataset[k].dims:
+                    continue # this variable does not have the axis
                 if method is None:
-                    dataset[k].put(mask, fill_value, axis=axis, inplace=True, indexing="position", cast=True)
+                    # (by name: the position of the axis differs between the dataset and its variables)
+                    dataset[k].put(mask, fill_value, axis=newax.name, inplace=True, indexing="position", cast=True)
 
         return dataset
 
